@@ -367,37 +367,19 @@ func (g *Generator) generateUnwrapMarshalJSON(gf *protogen.GeneratedFile, contai
 	gf.P("return []byte(\"null\"), nil")
 	gf.P("}")
 	gf.P()
+	gf.P("// every field in its proto3 JSON form first; the unwrap map fields are replaced below")
+	gf.P("std, err := protojson.Marshal(x)")
+	gf.P("if err != nil {")
+	gf.P("return nil, err")
+	gf.P("}")
 	gf.P("out := make(map[string]json.RawMessage)")
+	gf.P("if err := json.Unmarshal(std, &out); err != nil {")
+	gf.P("return nil, err")
+	gf.P("}")
 	gf.P()
 
-	// Handle each field in the message
-	for _, field := range containing.Message.Fields {
-		fieldName := field.GoName
-		jsonName := getJSONFieldName(field)
-
-		// Check if this is one of our unwrap map fields
-		var unwrapMapField *UnwrapMapField
-		for _, mf := range containing.MapFields {
-			if mf.Field == field {
-				unwrapMapField = mf
-				break
-			}
-		}
-
-		switch {
-		case unwrapMapField != nil:
-			// This is an unwrap map field - generate unwrap logic
-			g.generateUnwrapMapMarshal(gf, field, unwrapMapField, jsonName)
-		case field.Desc.IsMap():
-			// Regular map field
-			g.generateRegularMapMarshal(gf, field, jsonName)
-		case field.Desc.IsList():
-			// Repeated field
-			g.generateRepeatedFieldMarshal(gf, field, jsonName)
-		default:
-			// Scalar or message field
-			g.generateScalarFieldMarshal(gf, field, fieldName, jsonName)
-		}
+	for _, mf := range containing.MapFields {
+		g.generateUnwrapMapMarshal(gf, mf.Field, mf, getJSONFieldName(mf.Field))
 	}
 
 	gf.P("return json.Marshal(out)")
@@ -434,12 +416,8 @@ func (g *Generator) generateUnwrapMapMarshal(
 		gf.P("}")
 		gf.P("arrayData, err := json.Marshal(items)")
 	} else {
-		// For scalar types, marshal the array directly with json
-		gf.P("// Marshal the unwrap field directly (the array of scalars)")
-		gf.P("arrayData, err := json.Marshal(wrapper.Get", unwrapFieldName, "())")
-		gf.P("if err == nil && string(arrayData) == \"null\" {")
-		gf.P("arrayData = []byte(\"[]\") // an empty list is [], not null")
-		gf.P("}")
+		// For scalar types, take the array from the wrapper's proto3 JSON form
+		g.generateScalarItemsMarshal(gf, unwrapMapField.UnwrapField.Field)
 	}
 
 	gf.P("if err != nil {")
@@ -457,75 +435,20 @@ func (g *Generator) generateUnwrapMapMarshal(
 	gf.P()
 }
 
-func (g *Generator) generateRegularMapMarshal(gf *protogen.GeneratedFile, field *protogen.Field, jsonName string) {
-	fieldName := field.GoName
-
-	gf.P("// Handle regular map field: ", fieldName)
-	gf.P("if len(x.", fieldName, ") > 0 {")
-	gf.P("data, err := json.Marshal(x.", fieldName, ")")
-	gf.P("if err != nil {")
-	gf.P("return nil, err")
+// generateScalarItemsMarshal emits the lines that set arrayData to the proto3 JSON form of the wrapper's
+// unwrap field when its elements are scalars (64-bit integers as strings, enums by name, ...): the
+// wrapper is marshalled with protojson and the field is taken out of the result.
+func (g *Generator) generateScalarItemsMarshal(gf *protogen.GeneratedFile, unwrapField *protogen.Field) {
+	gf.P("arrayData := json.RawMessage(\"[]\") // an empty list is [], not null")
+	gf.P("wrapperData, err := protojson.Marshal(wrapper)")
+	gf.P("if err == nil {")
+	gf.P("var wrapperFields map[string]json.RawMessage")
+	gf.P("if err = json.Unmarshal(wrapperData, &wrapperFields); err == nil {")
+	gf.P(`if v, ok := wrapperFields["`, getJSONFieldName(unwrapField), `"]; ok {`)
+	gf.P("arrayData = v")
 	gf.P("}")
-	gf.P(`out["`, jsonName, `"] = data`)
 	gf.P("}")
-	gf.P()
-}
-
-func (g *Generator) generateRepeatedFieldMarshal(gf *protogen.GeneratedFile, field *protogen.Field, jsonName string) {
-	fieldName := field.GoName
-
-	gf.P("// Handle repeated field: ", fieldName)
-	gf.P("if len(x.", fieldName, ") > 0 {")
-	// Check if it's a message type
-	if field.Message != nil {
-		gf.P("items := make([]json.RawMessage, 0, len(x.", fieldName, "))")
-		gf.P("for _, item := range x.", fieldName, " {")
-		gf.P("data, err := protojson.Marshal(item)")
-		gf.P("if err != nil {")
-		gf.P("return nil, err")
-		gf.P("}")
-		gf.P("items = append(items, data)")
-		gf.P("}")
-		gf.P("data, err := json.Marshal(items)")
-	} else {
-		gf.P("data, err := json.Marshal(x.", fieldName, ")")
-	}
-	gf.P("if err != nil {")
-	gf.P("return nil, err")
 	gf.P("}")
-	gf.P(`out["`, jsonName, `"] = data`)
-	gf.P("}")
-	gf.P()
-}
-
-func (g *Generator) generateScalarFieldMarshal(
-	gf *protogen.GeneratedFile,
-	field *protogen.Field,
-	fieldName, jsonName string,
-) {
-	// Check if this is an optional field or message
-	if field.Message != nil {
-		gf.P("// Handle message field: ", fieldName)
-		gf.P("if x.", fieldName, " != nil {")
-		gf.P("data, err := protojson.Marshal(x.", fieldName, ")")
-		gf.P("if err != nil {")
-		gf.P("return nil, err")
-		gf.P("}")
-		gf.P(`out["`, jsonName, `"] = data`)
-		gf.P("}")
-	} else {
-		// Scalar field - only include if non-zero
-		zeroCheck := getZeroValueCheck(field, "x."+fieldName)
-		gf.P("// Handle scalar field: ", fieldName)
-		gf.P("if ", zeroCheck, " {")
-		gf.P("data, err := json.Marshal(x.", fieldName, ")")
-		gf.P("if err != nil {")
-		gf.P("return nil, err")
-		gf.P("}")
-		gf.P(`out["`, jsonName, `"] = data`)
-		gf.P("}")
-	}
-	gf.P()
 }
 
 func (g *Generator) generateUnwrapUnmarshalJSON(gf *protogen.GeneratedFile, containing *UnwrapContainingMessage) {
@@ -539,31 +462,26 @@ func (g *Generator) generateUnwrapUnmarshalJSON(gf *protogen.GeneratedFile, cont
 	gf.P("return err")
 	gf.P("}")
 	gf.P()
+	gf.P("// every other field is read in its proto3 JSON form (protojson.Unmarshal resets the message:")
+	gf.P("// the unwrap map fields are put in afterwards)")
+	gf.P("rest := make(map[string]json.RawMessage, len(raw))")
+	gf.P("for k, v := range raw {")
+	gf.P("rest[k] = v")
+	gf.P("}")
+	for _, mf := range containing.MapFields {
+		gf.P(`delete(rest, "`, getJSONFieldName(mf.Field), `")`)
+	}
+	gf.P("restData, err := json.Marshal(rest)")
+	gf.P("if err != nil {")
+	gf.P("return err")
+	gf.P("}")
+	gf.P("if err := protojson.Unmarshal(restData, x); err != nil {")
+	gf.P("return err")
+	gf.P("}")
+	gf.P()
 
-	// Handle each field
-	for _, field := range containing.Message.Fields {
-		fieldName := field.GoName
-		jsonName := getJSONFieldName(field)
-
-		// Check if this is one of our unwrap map fields
-		var unwrapMapField *UnwrapMapField
-		for _, mf := range containing.MapFields {
-			if mf.Field == field {
-				unwrapMapField = mf
-				break
-			}
-		}
-
-		switch {
-		case unwrapMapField != nil:
-			g.generateUnwrapMapUnmarshal(gf, field, unwrapMapField, jsonName)
-		case field.Desc.IsMap():
-			g.generateRegularMapUnmarshal(gf, field, jsonName)
-		case field.Desc.IsList():
-			g.generateRepeatedFieldUnmarshal(gf, field, jsonName)
-		default:
-			g.generateScalarFieldUnmarshal(gf, field, fieldName, jsonName)
-		}
+	for _, mf := range containing.MapFields {
+		g.generateUnwrapMapUnmarshal(gf, mf.Field, mf, getJSONFieldName(mf.Field))
 	}
 
 	gf.P("return nil")
@@ -607,129 +525,68 @@ func (g *Generator) generateUnwrapMapUnmarshal(
 		gf.P("}")
 		gf.P("items = append(items, item)")
 		gf.P("}")
+		gf.P("x.", fieldName, "[k] = &", valueTypeIdent, "{", unwrapFieldName, ": items}")
 	} else {
-		// Scalar type - need different handling
-		gf.P("var items []", getScalarTypeName(unwrapMapField.UnwrapField.Field))
-		gf.P("if err := json.Unmarshal(arrayRaw, &items); err != nil {")
-		gf.P("return err")
-		gf.P("}")
+		// Scalar elements: read through the wrapper's proto3 JSON form
+		g.generateScalarItemsUnmarshal(gf, unwrapMapField.UnwrapField.Field, valueTypeIdent, "x."+fieldName+"[k]")
 	}
-	gf.P("x.", fieldName, "[k] = &", valueTypeIdent, "{", unwrapFieldName, ": items}")
 	gf.P("}")
 	gf.P("}")
 	gf.P()
 }
 
-func (g *Generator) generateRegularMapUnmarshal(gf *protogen.GeneratedFile, field *protogen.Field, jsonName string) {
-	fieldName := field.GoName
-
-	gf.P("// Handle regular map field: ", fieldName)
-	gf.P(`if rawField, ok := raw["`, jsonName, `"]; ok {`)
-	gf.P("if err := json.Unmarshal(rawField, &x.", fieldName, "); err != nil {")
+// generateScalarItemsUnmarshal emits the lines that build a wrapper from the bare array arrayRaw of
+// scalar elements, through the wrapper's proto3 JSON form, and store it in target.
+func (g *Generator) generateScalarItemsUnmarshal(
+	gf *protogen.GeneratedFile,
+	unwrapField *protogen.Field,
+	valueTypeIdent protogen.GoIdent,
+	target string,
+) {
+	gf.P(`wrapped, err := json.Marshal(map[string]json.RawMessage{"`, getJSONFieldName(unwrapField), `": arrayRaw})`)
+	gf.P("if err != nil {")
 	gf.P("return err")
 	gf.P("}")
+	gf.P("wrapper := &", valueTypeIdent, "{}")
+	gf.P("if err := protojson.Unmarshal(wrapped, wrapper); err != nil {")
+	gf.P("return err")
 	gf.P("}")
-	gf.P()
+	gf.P(target, " = wrapper")
 }
 
-func (g *Generator) generateRepeatedFieldUnmarshal(gf *protogen.GeneratedFile, field *protogen.Field, jsonName string) {
-	fieldName := field.GoName
-
-	gf.P("// Handle repeated field: ", fieldName)
-	gf.P(`if rawField, ok := raw["`, jsonName, `"]; ok {`)
-	if field.Message != nil {
-		elementTypeIdent := field.Message.GoIdent
-		gf.P("var itemsRaw []json.RawMessage")
-		gf.P("if err := json.Unmarshal(rawField, &itemsRaw); err != nil {")
-		gf.P("return err")
-		gf.P("}")
-		gf.P("x.", fieldName, " = make([]*", gf.QualifiedGoIdent(elementTypeIdent), ", 0, len(itemsRaw))")
-		gf.P("for _, itemRaw := range itemsRaw {")
-		gf.P("item := &", elementTypeIdent, "{}")
-		gf.P("if err := protojson.Unmarshal(itemRaw, item); err != nil {")
-		gf.P("return err")
-		gf.P("}")
-		gf.P("x.", fieldName, " = append(x.", fieldName, ", item)")
-		gf.P("}")
-	} else {
-		gf.P("if err := json.Unmarshal(rawField, &x.", fieldName, "); err != nil {")
-		gf.P("return err")
-		gf.P("}")
-	}
+// generateRootScalarMarshal emits the body of a root unwrap MarshalJSON whose values are scalars: the
+// message is marshalled with protojson (the proto3 JSON form of the values: 64-bit integers as strings,
+// enums by name, ...) and the unwrap field is taken out of the result; empty is what an unpopulated
+// field is written as.
+func (g *Generator) generateRootScalarMarshal(gf *protogen.GeneratedFile, unwrapField *protogen.Field, empty string) {
+	gf.P("std, err := protojson.Marshal(x)")
+	gf.P("if err != nil {")
+	gf.P("return nil, err")
 	gf.P("}")
-	gf.P()
+	gf.P("var fields map[string]json.RawMessage")
+	gf.P("if err := json.Unmarshal(std, &fields); err != nil {")
+	gf.P("return nil, err")
+	gf.P("}")
+	gf.P(`if v, ok := fields["`, getJSONFieldName(unwrapField), `"]; ok {`)
+	gf.P("return v, nil")
+	gf.P("}")
+	gf.P(`return []byte("`, empty, `"), nil`)
 }
 
-func (g *Generator) generateScalarFieldUnmarshal(
-	gf *protogen.GeneratedFile,
-	field *protogen.Field,
-	fieldName, jsonName string,
-) {
-	gf.P("// Handle field: ", fieldName)
-	gf.P(`if rawField, ok := raw["`, jsonName, `"]; ok {`)
-	if field.Message != nil {
-		gf.P("x.", fieldName, " = &", field.Message.GoIdent.GoName, "{}")
-		gf.P("if err := protojson.Unmarshal(rawField, x.", fieldName, "); err != nil {")
-		gf.P("return err")
-		gf.P("}")
-	} else {
-		gf.P("if err := json.Unmarshal(rawField, &x.", fieldName, "); err != nil {")
-		gf.P("return err")
-		gf.P("}")
-	}
+// generateRootScalarUnmarshal emits the body of the matching UnmarshalJSON: the bare value is put back
+// under the field's name and read with protojson.
+func (g *Generator) generateRootScalarUnmarshal(gf *protogen.GeneratedFile, unwrapField *protogen.Field) {
+	gf.P(`wrapped, err := json.Marshal(map[string]json.RawMessage{"`, getJSONFieldName(unwrapField), `": data})`)
+	gf.P("if err != nil {")
+	gf.P("return err")
 	gf.P("}")
-	gf.P()
+	gf.P("return protojson.Unmarshal(wrapped, x)")
 }
 
 // getJSONFieldName returns the JSON field name for a protobuf field.
 func getJSONFieldName(field *protogen.Field) string {
 	// Use the proto JSON name (which is camelCase version of the proto field name)
 	return field.Desc.JSONName()
-}
-
-// getZeroValueCheck returns a condition that checks if a field is non-zero.
-func getZeroValueCheck(field *protogen.Field, fieldExpr string) string {
-	switch field.Desc.Kind().String() {
-	case kindString:
-		return fieldExpr + ` != ""`
-	case kindBool:
-		return fieldExpr
-	case kindInt32, kindSint32, kindSfixed32, kindInt64, kindSint64, kindSfixed64,
-		kindUint32, kindFixed32, kindUint64, kindFixed64, kindFloat, kindDouble:
-		return fieldExpr + " != 0"
-	case kindBytes:
-		return "len(" + fieldExpr + ") > 0"
-	case kindEnum:
-		return fieldExpr + " != 0"
-	default:
-		return fieldExpr + " != nil"
-	}
-}
-
-// getScalarTypeName returns the Go type name for a scalar field.
-func getScalarTypeName(field *protogen.Field) string {
-	switch field.Desc.Kind().String() {
-	case kindString:
-		return "string"
-	case kindBool:
-		return "bool"
-	case kindInt32, kindSint32, kindSfixed32:
-		return "int32"
-	case kindInt64, kindSint64, kindSfixed64:
-		return "int64"
-	case kindUint32, kindFixed32:
-		return "uint32"
-	case kindUint64, kindFixed64:
-		return "uint64"
-	case kindFloat:
-		return "float32"
-	case kindDouble:
-		return "float64"
-	case kindBytes:
-		return "[]byte"
-	default:
-		return kindInterface
-	}
 }
 
 // =============================================================================
@@ -760,10 +617,7 @@ func (g *Generator) generateRootMapUnwrapMarshalJSON(gf *protogen.GeneratedFile,
 		g.generateRootMapMessageValueMarshal(gf, rootUnwrap, fieldName)
 	default:
 		// Root map with scalar values (an empty map is {}, not null)
-		gf.P("if x.", fieldName, " == nil {")
-		gf.P("return []byte(\"{}\"), nil")
-		gf.P("}")
-		gf.P("return json.Marshal(x.", fieldName, ")")
+		g.generateRootScalarMarshal(gf, rootUnwrap.UnwrapField, "{}")
 	}
 
 	gf.P("}")
@@ -795,10 +649,7 @@ func (g *Generator) generateRootMapWithValueUnwrapMarshal(
 		gf.P("}")
 		gf.P("arrayData, err := json.Marshal(items)")
 	} else {
-		gf.P("arrayData, err := json.Marshal(wrapper.Get", unwrapFieldName, "())")
-		gf.P("if err == nil && string(arrayData) == \"null\" {")
-		gf.P("arrayData = []byte(\"[]\") // an empty list is [], not null")
-		gf.P("}")
+		g.generateScalarItemsMarshal(gf, rootUnwrap.ValueUnwrap.Field)
 	}
 
 	gf.P("if err != nil {")
@@ -846,7 +697,7 @@ func (g *Generator) generateRootMapUnwrapUnmarshalJSON(gf *protogen.GeneratedFil
 		g.generateRootMapMessageValueUnmarshal(gf, rootUnwrap, fieldName)
 	default:
 		// Root map with scalar values
-		gf.P("return json.Unmarshal(data, &x.", fieldName, ")")
+		g.generateRootScalarUnmarshal(gf, rootUnwrap.UnwrapField)
 	}
 
 	gf.P("}")
@@ -887,14 +738,11 @@ func (g *Generator) generateRootMapWithValueUnwrapUnmarshal(
 		gf.P("}")
 		gf.P("items = append(items, item)")
 		gf.P("}")
+		gf.P("x.", fieldName, "[k] = &", valueTypeIdent, "{", unwrapFieldName, ": items}")
 	} else {
-		gf.P("var items []", getScalarTypeName(rootUnwrap.ValueUnwrap.Field))
-		gf.P("if err := json.Unmarshal(arrayRaw, &items); err != nil {")
-		gf.P("return err")
-		gf.P("}")
+		g.generateScalarItemsUnmarshal(gf, rootUnwrap.ValueUnwrap.Field, valueTypeIdent, "x."+fieldName+"[k]")
 	}
 
-	gf.P("x.", fieldName, "[k] = &", valueTypeIdent, "{", unwrapFieldName, ": items}")
 	gf.P("}")
 	gf.P("return nil")
 }
@@ -952,11 +800,8 @@ func (g *Generator) generateRootRepeatedUnwrapMarshalJSON(gf *protogen.Generated
 		// Suppress unused variable warning
 		_ = elementTypeIdent
 	} else {
-		// Scalar type - marshal directly (an empty list is [], not null)
-		gf.P("if x.", fieldName, " == nil {")
-		gf.P("return []byte(\"[]\"), nil")
-		gf.P("}")
-		gf.P("return json.Marshal(x.", fieldName, ")")
+		// Scalar elements (an empty list is [], not null)
+		g.generateRootScalarMarshal(gf, rootUnwrap.UnwrapField, "[]")
 	}
 
 	gf.P("}")
@@ -989,8 +834,8 @@ func (g *Generator) generateRootRepeatedUnwrapUnmarshalJSON(gf *protogen.Generat
 		gf.P("}")
 		gf.P("return nil")
 	} else {
-		// Scalar type - unmarshal directly
-		gf.P("return json.Unmarshal(data, &x.", fieldName, ")")
+		// Scalar elements
+		g.generateRootScalarUnmarshal(gf, rootUnwrap.UnwrapField)
 	}
 
 	gf.P("}")
